@@ -28,6 +28,7 @@ RULE = ("Random grids of 2-12 daily/irregular timesteps of which ~85% carry an e
         "expanding. Non-trivial = fold strictly inside the grid with >= 2 valid starts or a refusal.")
 ASSUMPTIONS = ["the episode_length argument of reset() ('number of states') is not judged; the configured length is",
                "sampling_span cases only check membership, not reachability"]
+REQUIRED_CATS = ["events-added-then-rebuilt"]
 REQUIRED = ["C15:decisions-exact", "C15:start-valid", "C15:visits-contiguous", "C15:every-start-reachable", "C15:refused-when-none-fits",
             "C15:whole-fold", "C15:walk-forward"]
 TECHNIQUE = "runtime monitoring: visited timesteps (observer clock per call) compared with the fold's event-bearing steps; seeded reachability sweep"
@@ -138,6 +139,21 @@ def case(ctx, i, tier):
             ctx.violation("C15:refused-when-none-fits", nlen=None, steps=0)
         except Exception:
             ctx.check("C15:refused-when-none-fits", True)
+    # the same transmitter after MORE events were added (more timesteps become event-bearing) and a
+    # new environment was built on it: episodes follow the new set of event-bearing timesteps
+    empty = [g for g in grid if g not in bearing]
+    if steps and empty:
+        extra = [g for g in empty if rng.random() < 0.7] or empty[:1]
+        tr.add_events([EventNBBO(g, ETF("A"), 11, 11) for g in extra])
+        sink = ep.Sink()
+        env = TradingEnv(action_space=BoxPortfolio([ETF("A")]), transmitter=tr, state=ep.Rec(sink))
+        sink.env = env
+        bearing2 = sorted(set(bearing) | set(extra))
+        steps2 = [g for g in bearing2 if s <= g <= e]
+        if steps2:
+            seq, k, over = visited_run(env, sink, fold, cap=len(grid) + 2)
+            ctx.check("C15:whole-fold", not over and seq == steps2, visited=seq, want=steps2, after="events added + environment rebuilt")
+            ctx.cat("events-added-then-rebuilt")
     # walk forward
     ts = rng.randint(1, 4)
     trn = rng.randint(1, 5)
